@@ -10,6 +10,7 @@ import TpmModel.RcSpec
 import TpmModel.Front
 import TpmModel.Cache
 import TpmModel.Print
+import TpmModel.Obj
 /-! Line-protocol driver: one operation per input line, canonical observation lines + `END` per operation. -/
 
 def findType (n : String) : Option Ty := (Generated.typeByName.find? (·.1 == n)).map (·.2)
@@ -106,6 +107,17 @@ def handle (line : String) : List String :=
       pr ++ [s!"U {if u.isEmpty then "-" else hexOfBytes u} {evs.length}"] ++ (eventsRows printEnv evs 0).map erowStr
     | none, _ => ["X unknown-type " ++ ty]
     | _, none => ["X bad-hex"]
+  | ["O2E", ty, cc, vs] =>
+    match parseValStr vs with
+    | none => ["X bad-val"]
+    | some v =>
+      let evs := match ty with
+        | "Command" => some (o2eMessage Generated.msgTables true ((objField v "commandCode").bind vInt) v rootPath)
+        | "Response" => some (o2eMessage Generated.msgTables false (if cc == "-" then none else cc.toInt?) v rootPath)
+        | n => (findType n).map fun t => o2e t v rootPath
+      match evs with
+      | none => ["X unknown-type " ++ ty]
+      | some es => es.map fun e => s!"M 0 {e.str}"
   | ["SPECP", ty, sel, vs] =>
     match (Pinned.typeByName.find? (·.1 == ty)).map (·.2), parseValStr vs with
     | some t, some v =>
